@@ -244,6 +244,17 @@ func applyInt64Constraints(constraints *validate.FieldRules, schema *base.Schema
 	}
 }
 
+// float32Bound widens a float32 rule bound to the float64 the schema carries by way of its
+// shortest decimal form (3.14159, not 3.141590118408203): the JSON form of a float32 value is
+// that shortest decimal, so a value equal to the bound compares equal to the published number.
+func float32Bound(v float32) float64 {
+	f, err := strconv.ParseFloat(strconv.FormatFloat(float64(v), 'g', -1, 32), 64)
+	if err != nil {
+		return float64(v)
+	}
+	return f
+}
+
 // applyFloatConstraints applies float validation constraints to the schema.
 func applyFloatConstraints(constraints *validate.FieldRules, schema *base.Schema) {
 	floatConstraints := constraints.GetFloat()
@@ -253,25 +264,25 @@ func applyFloatConstraints(constraints *validate.FieldRules, schema *base.Schema
 
 	// Greater than or equal (minimum)
 	if floatConstraints.HasGte() {
-		minValue := float64(floatConstraints.GetGte())
+		minValue := float32Bound(floatConstraints.GetGte())
 		schema.Minimum = &minValue
 	}
 
 	// Greater than (exclusive minimum)
 	if floatConstraints.HasGt() {
-		minValue := float64(floatConstraints.GetGt())
+		minValue := float32Bound(floatConstraints.GetGt())
 		schema.ExclusiveMinimum = &base.DynamicValue[bool, float64]{N: 1, B: minValue}
 	}
 
 	// Less than or equal (maximum)
 	if floatConstraints.HasLte() {
-		maxValue := float64(floatConstraints.GetLte())
+		maxValue := float32Bound(floatConstraints.GetLte())
 		schema.Maximum = &maxValue
 	}
 
 	// Less than (exclusive maximum)
 	if floatConstraints.HasLt() {
-		maxValue := float64(floatConstraints.GetLt())
+		maxValue := float32Bound(floatConstraints.GetLt())
 		schema.ExclusiveMaximum = &base.DynamicValue[bool, float64]{N: 1, B: maxValue}
 	}
 
